@@ -885,6 +885,7 @@ class AwareASTNode(DataClassSerializeMixin):
                     new_was_attached = False
 
                 # Change the ID of the new node to the old one, and store the old one in original_id
+                new_id, new_original_id = new.id, new.original_id
                 object.__setattr__(new, "original_id", new.id)
                 object.__setattr__(new, "id", self.id)
 
@@ -892,8 +893,10 @@ class AwareASTNode(DataClassSerializeMixin):
                 try:
                     new._attach("replace")
                 except Exception as e:
-                    # If we failed to the attach new node, re-attach the old one
-                    # and raise the exception
+                    # If we failed to the attach new node, give it its ids back,
+                    # re-attach the old one and raise the exception
+                    object.__setattr__(new, "id", new_id)
+                    object.__setattr__(new, "original_id", new_original_id)
 
                     assert cur_parent_field is not None
                     self._set_parent(cur_parent, cur_parent_field, cur_parent_index)
@@ -933,6 +936,7 @@ class AwareASTNode(DataClassSerializeMixin):
                 new_was_attached = False
 
             # Change the ID of the new node to the old one, and store the old one in original_id
+            new_id, new_original_id = new.id, new.original_id
             object.__setattr__(new, "original_id", new.id)
             object.__setattr__(new, "id", self.id)
 
@@ -940,8 +944,11 @@ class AwareASTNode(DataClassSerializeMixin):
             try:
                 new._attach("replace")
             except Exception as e:
-                # If we failed to the attach new node, re-attach the old one
-                # and raise the exception
+                # If we failed to the attach new node, give it its ids back,
+                # re-attach the old one and raise the exception
+                object.__setattr__(new, "id", new_id)
+                object.__setattr__(new, "original_id", new_original_id)
+
                 if was_attached:
                     self._attach("replace")
 
